@@ -195,3 +195,58 @@ class InterpND(Contract):
             yield "variable-without-the-axis-unchanged", list(out["w"].values) == [0., 1., 2.] and list(out["w"].axes[0].values) == [1., 2., 3.]
         arr = env["arr"]
         yield "operand-untouched", _same(np, arr.values, data) and all(list(arr.axes[e].values) == list(labels[e]) for e in range(rank)) and dict(arr.attrs) == env["attrs0"]
+
+
+class InterpAtNodes(Contract):
+    """BOUNDED STAND-IN ONLY (never counted as proved).  "It reproduces the original values at existing labels": interp_axis
+    evaluated at the axis' own labels (in any order, repeats allowed) returns exactly the values stored at those labels --
+    for finite values, NaN and +/-inf alike (a weighted sum `v + 0 * (v - v)` is NaN for an infinite v) --, for arrays of rank
+    1-3 along every numeric axis, the Dataset variant included.  [C18]"""
+    target = "dimarray.core.transform:interp_axis"
+    props = ("C18",)
+    native_only = True
+
+    def cases(self, tier):
+        for rank in (1, 2, 3):
+            for d in range(rank):
+                if d == 1:
+                    continue
+                for special in ("finite-or-nan", "inf", "-inf"):
+                    for variant in ("interp_axis", "dataset"):
+                        if variant == "dataset" and rank == 3:
+                            continue
+                        yield {"name": "r%d-axis%d-%s-%s" % (rank, d, special, variant), "rank": rank, "d": d, "special": special, "variant": variant}
+
+    def setup(self, S, case):
+        arr, labels, data = make_dimarray(S, case["rank"], kinds=("f", "O", "f"), attrs=ATTRS)
+        for L in labels:
+            S.assume(S.n(L) >= 1, "at least one label")
+        return {"arr": arr, "labels": labels, "data": data, "q": S.array1d("q", "I"), "p": S.int("p")}
+
+    def call(self, fn, env):
+        import numpy as np
+        case, S = env["case"], env["S"]
+        labels = [np.asarray(L) for L in env["labels"]]
+        data = np.array(env["data"], dtype=float)
+        if case["special"] != "finite-or-nan" and data.size:
+            flat = data.reshape(-1)
+            flat[int(env["p"]) % flat.size] = np.inf if case["special"] == "inf" else -np.inf
+        a = S.da.DimArray(data, axes=[("x%d" % e, L.copy()) for e, L in enumerate(labels)])
+        d = case["d"]
+        n = len(labels[d])
+        q = [int(t) % n for t in np.asarray(env["q"])] or list(range(n))
+        new = np.asarray(labels[d], dtype=float)[q]
+        env.update({"a": a, "q": q, "data0": data.copy()})
+        if case["variant"] == "interp_axis":
+            return a.interp_axis(new, axis="x%d" % d)
+        ds = S.da.Dataset()
+        ds["v"] = a
+        return ds.interp_axis(new, axis="x%d" % d)["v"]
+
+    def post(self, S, case, env, result):
+        import numpy as np
+        d, q = case["d"], env["q"]
+        want = np.take(env["data0"], q, axis=d)
+        got = np.asarray(result.values, dtype=float)
+        yield "values-at-existing-labels-are-the-stored-values", got.shape == want.shape and bool(np.all((got == want) | (np.isnan(got) & np.isnan(want))))
+        yield "operand-untouched", bool(np.all((env["a"].values == env["data0"]) | (np.isnan(env["a"].values) & np.isnan(env["data0"]))))
